@@ -37,6 +37,15 @@ def run(ctx: Ctx) -> None:
     n7 = S.interleaving_sweep(ctx, v, "C07.R7")
     rep.analysed["interleaved_states_explored"] = n7
     rep.floor("C07.R7", n7, 100)
+    rep.rule("C07.R8", "as C06.R7: the reading methods modify no entry of the store (two readers, or a reader and a writer, never race on a committed entry)")
+    n8 = S.readers_read_only(ctx, v, "C07.R8")
+    rep.floor("C07.R8", n8, 3)
+    rep.rule("C07.R9", "as C04.R1: an evaluation that finds its blobs already stored still commits its complete path map - the process that stored them "
+                       "may not have reached its own path commit yet (or may never reach it)")
+    from .common import find_api_functions
+    from .c04 import commit_rules
+    top_, _n = find_api_functions(ctx)
+    commit_rules(ctx, top_, "C07.R9")
     f = ctx.prog.funcs.get("dds._api._store")
     if f is not None:
         rep.info("C07.R1", f.qname, "delayed creation of the default store is a check-then-set on a module global inside one process (listed, not judged: the property is about processes)", f.loc())
